@@ -35,7 +35,9 @@ ENC_CONTENT = [(E, 'ber.encoder::BooleanEncoder.encodeValue'), (E, 'cer.encoder:
                (E, 'ber.encoder::SequenceEncoder.encodeValue[value-object]'),
                (E, 'ber.encoder::OctetStringEncoder.encodeValue[value-object]'),
                (E, 'ber.encoder::SequenceOfEncoder._encodeComponents[value-object]'),
-               (E, 'ber.encoder::BitStringEncoder.encodeValue[value-object]')]
+               (E, 'ber.encoder::BitStringEncoder.encodeValue[value-object]'),
+               (E, 'ber.encoder::ChoiceEncoder.encodeValue[value-object]'),
+               (E, 'ber.encoder::AnyEncoder.encodeValue[value-object]')]
 INTS = [(IN, 'compat.integer::to_bytes[signed]'), (IN, 'compat.integer::to_bytes[unsigned,length]'),
         (IN, 'compat.integer::from_bytes[signed]'), (IN, 'compat.integer::from_bytes[unsigned]')]
 READS = [(ST, 'codec.streaming::readFromStream[complete]'), (ST, 'codec.streaming::readFromStream[partial]'),
@@ -403,13 +405,20 @@ PROPS['C19']['contracts'] = PROPS['C19']['contracts'] + CONTAINERS
 PROPS['C04']['contracts'] = PROPS['C04']['contracts'] + [c for c in CONTAINERS if '_cloneComponentValues' in c[1] or '.append' in c[1]]
 PROPS['C12']['contracts'] = PROPS['C12']['contracts'] + [c for c in CONTAINERS if '_cloneComponentValues' in c[1] or 'getComponentByPosition' in c[1]]
 PROPS['C10']['contracts'] = PROPS['C10']['contracts'] + [c for c in CONTAINERS if '.isValue' in c[1]]
-PROPS['C14']['contracts'] = PROPS['C14']['contracts'] + [c for c in CONTAINERS if 'setComponentByPosition[' in c[1] and 'value-object' in c[1]]
+PROPS['C14']['contracts'] = PROPS['C14']['contracts'] + [c for c in CONTAINERS if ('setComponentByPosition[' in c[1] and 'value-object' in c[1]) or 'isInconsistent' in c[1]]
+PROPS['C10']['contracts'] = PROPS['C10']['contracts'] + [c for c in CONTAINERS if 'isInconsistent' in c[1]]
 PROPS['C19']['level_text'] += (' SEQUENCE OF / SET OF against an abstract view: the sparse dict is modelled with symbolic integer keys '
                                'and __len__, clear, reset, setComponentByPosition (frame: every other position keeps its member; a '
                                'refused assignment changes nothing), getComponentByPosition (reading an existing member changes '
                                'nothing), __getitem__/__setitem__ (library errors become IndexError, no change), append, isValue and '
                                '_cloneComponentValues are discharged for all contents; `dense` (positions 0..L-1, i.e. a python list) '
                                'is preserved by every well-formed mutator.')
+OCT_INDEF = [(D, 'ber.decoder::OctetStringPayloadDecoder.indefLenValueDecoder[complete]')]
+for _p in ('C09', 'C01', 'C08'):
+    PROPS[_p]['contracts'] = PROPS[_p]['contracts'] + OCT_INDEF
+SUBTYPE_TEST = [(BS, 'type.base::Asn1Type.isSuperTypeOf'), (BS, 'type.base::Asn1Type.isSameTypeWith'), (BS, 'type.base::Asn1Type._refine')]
+for _p in ('C14', 'C13'):
+    PROPS[_p]['contracts'] = PROPS[_p]['contracts'] + SUBTYPE_TEST
 for _p in list(PROPS):
     NOT_CLAIMED.pop(_p, None)
 
